@@ -273,7 +273,12 @@ def _builder(cx, ev, exp):
     if isinstance(v, tuple) and v and v[0] == "array":
         arr = v[1]
     if arr is None:
-        return False, "no 8-byte array literal (unrecognised-construct: %s)" % (outs[0][1].unrec[:2],)
+        # the same eight bytes pushed one after the other (possibly from loops over constant tables, which unroll)
+        pushes = [e for e in outs[0][1].effects if e[0] == "call" and isinstance(e[1], str) and e[1].endswith("Vec<T, A>::push")]
+        if len(pushes) == 8 and len({repr(e[2][0]) for e in pushes}) == 1:
+            arr = tuple(e[2][1] for e in pushes)
+    if arr is None:
+        return False, "no 8-byte array literal and no run of eight pushes (unrecognised-construct: %s)" % (outs[0][1].unrec[:2],)
     bad = [k for k in range(8) if not isinstance(arr[k], tuple) or T.lanes(arr[k]) != exp[k]]
     return not bad, "bytes differing: %s" % bad if bad else "all 8 bytes match"
 
